@@ -9,7 +9,7 @@ use std::{
     io,
 };
 
-use noodles_csi::{self as csi, BinningIndex};
+use noodles_csi::{self as csi, BinningIndex, binning_index::ReferenceSequence as _};
 use noodles_gff as gff;
 use noodles_sam as sam;
 use noodles_vcf as vcf;
@@ -345,7 +345,39 @@ pub fn render_alignment_record(h: &sam::Header, r: &dyn sam::alignment::Record, 
 // ---------------------------------------------------------------------------------- variants
 
 pub fn render_vcf_header(h: &vcf::Header) -> String {
-    format!("header: {}", esc(format!("{h:?}")))
+    // not `{h:?}`: the header's string maps hold a HashMap whose Debug order is not deterministic
+    let mut s = format!(
+        "file_format={:?} infos={:?} filters={:?} formats={:?} alts={:?} contigs={:?} samples={:?} other={:?}",
+        h.file_format(),
+        h.infos(),
+        h.filters(),
+        h.formats(),
+        h.alternative_alleles(),
+        h.contigs(),
+        h.sample_names(),
+        h.other_records()
+    );
+    let sm = h.string_maps();
+    s.push_str(" strings=[");
+    let mut i = 0;
+    while let Some(x) = sm.strings().get_index(i) {
+        let _ = write!(s, "{i}:{x}@{:?},", sm.strings().get_index_of(x));
+        i += 1;
+        if i > 100_000 {
+            break;
+        }
+    }
+    s.push_str("] contig_strings=[");
+    let mut i = 0;
+    while let Some(x) = sm.contigs().get_index(i) {
+        let _ = write!(s, "{i}:{x}@{:?},", sm.contigs().get_index_of(x));
+        i += 1;
+        if i > 100_000 {
+            break;
+        }
+    }
+    s.push(']');
+    format!("header: {}", esc(s))
 }
 
 fn render_opt<T>(o: &mut String, r: io::Result<Option<T>>, f: impl FnOnce(&mut String, T)) {
@@ -693,7 +725,6 @@ pub fn render_feature_attributes(out: &mut String, a: &dyn gff::feature::record:
                 if let Some(s) = v.as_string() {
                     let _ = write!(o, "s:{}", esc(s));
                 }
-                let _ = v.as_array().is_some();
                 match &v {
                     Value::String(_) => {}
                     Value::Array(_) => o.push_str("a:"),
